@@ -38,6 +38,8 @@ type Verdict struct {
 	Excluded bool
 	// Observations are stronger-than-stated facts noticed (never violations).
 	Observations []string
+	// Counts are added to the label histogram (e.g. number of crash points enumerated).
+	Counts map[string]int
 }
 
 // OK is the verdict of a scenario on which the property held.
@@ -177,15 +179,15 @@ func scenarioHash(js []byte) string {
 
 // Runner is the per-check state.
 type Runner[S any] struct {
-	t      *testing.T
-	id     string
-	name   string
-	run    func(S) Verdict
-	known  map[string]knownFinding
-	st     *Stats
-	ntSeen map[string]bool
-	failed bool
-	last   *violationRec
+	t        *testing.T
+	id       string
+	name     string
+	run      func(S) Verdict
+	known    map[string]knownFinding
+	st       *Stats
+	ntSeen   map[string]bool
+	failed   bool
+	last     *violationRec
 	smallest []byte
 	// printedKnown avoids repeating KNOWN-FINDING lines.
 	printedKnown map[string]bool
@@ -210,6 +212,9 @@ func (r *Runner[S]) account(sc S, v Verdict, counting bool) (js []byte, h string
 	}
 	for _, o := range v.Observations {
 		r.st.Observations[o]++
+	}
+	for k, c := range v.Counts {
+		r.st.Labels[k] += c
 	}
 	if v.NonTrivial && !r.ntSeen[h] {
 		r.ntSeen[h] = true
